@@ -2,6 +2,7 @@ package sym
 
 import (
 	"fmt"
+	"time"
 	"go/constant"
 	"go/token"
 	"go/types"
@@ -129,6 +130,7 @@ type Machine struct {
 	pkgSeen        map[*ssa.Package]bool
 	entPrinted     int
 	bypass         *ssa.Function
+	pathDeadline   time.Time
 }
 
 type Options struct {
@@ -147,6 +149,7 @@ type Options struct {
 	MapOrder     bool // map iteration starts at a nondeterministic rotation
 	NoDomain     bool // disable the byte-domain front solver
 	Thorough     bool // value of verifrt.Thorough()
+	PathSeconds  int  // wall-clock limit per path (default 120)
 	NoModels     bool // run the real code instead of the validated models (model validation harnesses)
 }
 
@@ -203,9 +206,11 @@ func NewMachine(p *Program, opts Options) (*Machine, error) {
 	if err != nil {
 		return nil, err
 	}
+	tt0 := NewTermTable()
+	s.TT = tt0
 	m := &Machine{
 		P:          p,
-		tt:         NewTermTable(),
+		tt:         tt0,
 		solver:     s,
 		Opts:       opts,
 		intMode:    opts.IntMode,
@@ -288,6 +293,14 @@ func (m *Machine) load(p Ptr) value {
 		return m.selectElem(p.arr, p.idx)
 	}
 	if p.p == nil {
+		if p.fld == -2 && p.arr != nil {
+			// pointer to an array sharing a slice's storage
+			out := make(Array, len(p.arr))
+			for i := range out {
+				out[i] = copyVal(p.arr[i])
+			}
+			return out
+		}
 		if p.arr != nil {
 			m.goPanic("runtime error: load through pointer past the end of an array")
 		}
@@ -308,6 +321,14 @@ func (m *Machine) store(p Ptr, v value) {
 		for i := range p.arr {
 			c := m.tt.Eq(p.idx, m.tt.BV(p.idx.sort, uint64(i)))
 			p.arr[i] = m.mergeValues(c, v, p.arr[i])
+		}
+		return
+	}
+	if p.p == nil && p.fld == -2 && p.arr != nil {
+		src := v.(Array)
+		for i := range p.arr {
+			m.noteWrite(p.obj, &p.arr[i])
+			p.arr[i] = copyVal(src[i])
 		}
 		return
 	}
@@ -802,6 +823,9 @@ func (m *Machine) runFrame1(fr *frame) {
 		jumped := false
 		for _, instr := range blk.Instrs[start:] {
 			m.steps++
+			if m.steps&0x3ff == 0 && m.initing == 0 && !m.pathDeadline.IsZero() && time.Now().After(m.pathDeadline) {
+				panic(pathEnd{kind: endBudget, msg: fmt.Sprintf("path wall-clock limit exceeded in %s (solver queries on this path too slow or too many)", fr.fn)})
+			}
 			if m.steps > m.Opts.StepBudget && m.initing == 0 {
 				panic(pathEnd{kind: endBudget, msg: fmt.Sprintf("step budget %d exhausted in %s", m.Opts.StepBudget, fr.fn)})
 			}
